@@ -10,7 +10,7 @@
 (* join offset, every writer script, every corruption position) is over    *)
 (* the packets the real sender produced.                                   *)
 (***************************************************************************)
-EXTENDS Naturals, Sequences, FiniteSets, TLC, Json, IOUtils, SequencesExt
+EXTENDS Integers, Sequences, FiniteSets, TLC, Json, IOUtils, SequencesExt
 CONSTANTS Mode, Family, MaxN
 
 Oti(s, e, b, p, fti) == [scheme |-> s, E |-> e, B |-> b, par |-> p, fti |-> fti]
@@ -76,8 +76,16 @@ ExpB(p) ==
     objs |-> << [clen |-> 8, oti |-> Oti(0, 4, 2, 0, p[3])] >>,
     ops |-> << <<"add", 1>>, <<"publish">>, <<"drain">> >> ]
 
-SessParams == CASE Family = "small" -> SmallP [] Family = "clean" -> CleanP [] Family = "car" -> CarP [] Family = "exp" -> ExpP
-SessBuild(p) == CASE Family = "small" -> SmallB(p) [] Family = "clean" -> CleanB(p) [] Family = "car" -> CarB(p) [] Family = "exp" -> ExpB(p)
+\* sessions for the memory check: several objects (FDT-only or in-band OTI), FDT instances of several packets
+MemP == BOOLEAN \X {0, 5} \X {2, 5} \X {"full", "obt"}
+MemB(p) ==
+  [ fam |-> "mem",
+    cfg |-> [scheme |-> 0, E |-> 256, B |-> 4, interleave |-> 2, queues |-> << <<0, 2>> >>, mode |-> p[4]],
+    objs |-> [o \in 1..p[3] |-> [clen |-> 40 + 8 * o, oti |-> Oti(p[2], 8, 3, IF p[2] = 0 THEN 0 ELSE 1, p[1])]],
+    ops |-> FlattenSeq([o \in 1..p[3] |-> << <<"add", o>>, <<"publish">> >>]) \o << <<"drain">> >> ]
+
+SessParams == CASE Family = "small" -> SmallP [] Family = "mem" -> MemP [] Family = "clean" -> CleanP [] Family = "car" -> CarP [] Family = "exp" -> ExpP
+SessBuild(p) == CASE Family = "small" -> SmallB(p) [] Family = "mem" -> MemB(p) [] Family = "clean" -> CleanB(p) [] Family = "car" -> CarB(p) [] Family = "exp" -> ExpB(p)
 
 -----------------------------------------------------------------------------
 (* channel schedules over recorded sessions *)
@@ -105,6 +113,9 @@ ChanK(s) ==
                                           <<"trunc", 3>>, <<"ext", 1>> } \X BOOLEAN
     [] Family = "writer"  -> {"store", "already", "abort"} \X {0, 1} \X {0, 1, 2, 3} \X (0..NP(s)) \X {"fwd", "objfirst"}
     [] Family = "clean"   -> BOOLEAN \X BOOLEAN
+    [] Family = "c04"     -> (0..NP(s)) \X ({<<"fuzzhdr", i>> : i \in 1..NP(s)} \cup {<<"xmlfdt", v>> : v \in 0..29}
+                                           \cup {<<"mutseq", x>> : x \in 1..6} \cup {<<"garbage", 1>>})
+    [] Family = "mem"     -> {"nofdt", "missing", "fdtfirst", "all"} \X {1, 3, 10} \X {100, 400, 2000} \X {0, 1, 2} \X {0, -1} \X {0, -1}
     [] Family = "expiry"  -> {-946080000, -86400, -5, 0, 5, 86400, 946080000} \X {0, 1, 2, 3} \X BOOLEAN \X BOOLEAN \X BOOLEAN
 
 ChanBuild(s, k) ==
@@ -125,6 +136,19 @@ ChanBuild(s, k) ==
                                               (<< <<"seq", 2, n>>, <<"p", 1>> >>))
                                         \o (IF k[5] = "fwd" /\ k[4] < n /\ k[4] % 2 = 0 THEN << <<"d">> >> ELSE <<>>)]
     [] Family = "clean"   -> [sid |-> sid, fam |-> "clean", rcfg |-> [once |-> k[1]], w |-> [md5 |-> k[2]], sched |-> << <<"seq", 1, n>> >>]
+    [] Family = "c04"     -> [sid |-> sid, fam |-> "c04", prefix |-> k[1], adv |-> k[2]]
+    [] Family = "mem"     ->
+         LET keep(i) == LET q == Sess[s].pkts[i] IN
+                        CASE k[1] = "nofdt"    -> q.k = "obj"
+                          [] k[1] = "missing"  -> q.k = "fdt" \/ (q.k = "obj" /\ q.esi # 0)
+                          [] k[1] = "fdtfirst" -> (q.k = "fdt" /\ q.esi = 0 /\ q.sbn = 0) \/ q.k = "obj"
+                          [] OTHER -> TRUE
+             once == FlattenSeq([i \in 1..n |-> IF keep(i) THEN << <<"p", i>> >> ELSE <<>>])
+             RECURSIVE Rep(_)
+             Rep(r) == IF r = 0 THEN <<>> ELSE once \o Rep(r - 1)
+         IN [sid |-> sid, fam |-> "mem", pattern |-> k[1],
+             rcfg |-> [max_cache |-> k[3], max_err |-> k[4], obj_to |-> k[5], sess_to |-> k[6], once |-> FALSE],
+             sched |-> Rep(k[2]) \o << <<"sleep", 5>>, <<"c">> >>]
     [] Family = "expiry"  ->
          \* receiver clock skew k[1]; transit delay class k[2] relative to the FDT duration D: 0, D-3, D+3, 2D;
          \* k[3] expiry check; k[4] object packets before the FDT; k[5] cleanup in between
